@@ -27,24 +27,24 @@ PROPS = {
  "C08": ("bounded-exhaustive token sequences (33-token alphabet, length <= 4/5; reduced alphabets longer) and character strings + random/mutated texts; differential vs reference LL(1) parser",
          "Every token sequence up to the length bound over the full token alphabet is parsed by both front-ends: reject/accept must agree and accepted trees must be equal; lexer compared token by token on all short strings.",
          "the reference grammar was derived from README and by reading the parser; agreement on the unchanged tree is partly by construction"),
- "C09": ("generated formulas biased to bound/free name reuse x optional orderings; oracle = textbook FV + first-appearance numbering",
+ "C09": ("generated formulas biased to bound/free name reuse x optional orderings, plus wide texts of 60..300 names; oracle = textbook FV on the reference tree",
          "free_vars / vars / support of the answer / id->column map compared with the reference analysis for generated formulas and orderings.",
          "reference-free formulas only (the property's domain)"),
- "C10": ("generated formulas x option battery on the real binary; oracle = reference table; partition/coverage check of printed rows; channel and -b metamorphic equality",
-         "Every printed row is checked against the reference function on every total assignment it covers; coverage per filter; byte-identical stdout across channels and repetition counts.",
+ "C10": ("generated formulas x option battery on the real binary; oracle = reference table; partition/coverage check of printed rows; channel and -b metamorphic equality; wide formulas (1..200 free variables) judged symbolically and by exact counting of covered assignments",
+         "Every printed row is checked against the reference function on every total assignment it covers; coverage per filter; byte-identical stdout across channels and repetition counts. For wide formulas: row value decided symbolically, rows pairwise disjoint, sum of 2^#Any equal to 2^n / #sat / #unsat.",
          "spawns /verif/target/repo/release/rsbdd built from the working tree"),
  "C11": ("generated formulas x orderings (API NamedSymbol vectors and CLI files); oracle = by-name table equality, expected numbering, -r/-o round trip",
          "Meaning preserved by name under permutations/subsets/supersets/gaps; ids and path order as prescribed; exported order fed back reproduces the identical table.",
          "API orderings have distinct names and ids"),
  "C12": ("random bytes / token soups / mutated formulas / structured corpus, in-process under catch_unwind and through the binary; oracle = no panic, exit status",
          "Robustness over generated byte strings and option sets within the stated domain (depth <= 200, 64 KiB, convergent fixed points); a panic anywhere on the input path is a violation.",
-         "a time-out is inconclusive, never a violation; -g excluded"),
+         "a time-out is inconclusive, never a violation; -g excluded; whether a non-monotone fixed point converges is decided by the reference semantics"),
  "C13": ("model-based operation histories (proptest tapes) over one environment; oracle = table model + fresh-environment replay + pointer-identity invariants",
          "After every step of generated histories: table model, structural identity with a fresh environment, old handles unchanged, unique-table invariants (Rc::ptr_eq), DOT id consistency.",
          "handles given to an environment were produced by it; shared formulas use one common ordering"),
- "C14": ("bounded-exhaustive diagrams (all functions of <= 3/4 variables x filters) + random diagrams and syntax trees; round-trip through a minimal DOT reader",
+ "C14": ("bounded-exhaustive diagrams (all functions of <= 3/4 variables x filters) + random diagrams and syntax trees; round-trip through a reader for the DOT language; diagrams also as plain values / nodes of another environment",
          "Exports are read back: evaluated under every assignment, compared node/edge-wise between filters, and syntax trees rebuilt into terms and compared with the reference tree.",
-         "the DOT reader accepts exactly what the dot crate emits"),
+         "the DOT reader handles graph/digraph, node/edge/attribute statements, chains, quoted/bare/numeric ids, comments (no subgraphs, no HTML ids); parse-tree labels of an unknown vocabulary are judged structurally (one-to-one, payload, spelling)"),
  "C15": ("configuration enumeration over board sizes + exhaustive/generated assignments; oracle = brute-force queens enumerator and classifier; end-to-end rsbdd solve",
          "Exact model-set equality for n <= 4/5 over all 2^(n*n) assignments, classification agreement on all n^n row placements, attacking pairs and near-misses for larger n, and `rsbdd -t -ft` listing exactly the reference solutions for n <= 6/7.",
          "n <= 8 (quick) / 10 (thorough)"),
@@ -57,8 +57,8 @@ PROPS = {
  "C18": ("exhaustive small requests + random requests, three fresh samples each; oracle = per-sample invariants, convert model, brute-force colouring/clique search",
          "Only invariants that must hold for every random sample are judged; infeasible requests must be refused without output; --colors against brute force.",
          "the distribution of samples is not judged"),
- "C19": ("model-based, bounded-exhaustive: every reachable pair of reference states x every next operation (b = 1, 2) + random histories; oracle = BTreeSet",
-         "Exhaustive over all reference state pairs and operations for b <= 2, every membership query asked twice after every step; random longer histories for b <= 3 with three sets.",
+ "C19": ("model-based, bounded-exhaustive: every reachable pair of reference states x every next operation (b = 1, 2) + random histories; oracle = BTreeSet; element widths up to 64 bits against finite / co-finite reference sets",
+         "Exhaustive over all reference state pairs and operations for b <= 2, every membership query asked twice after every step; random longer histories for b <= 3 with three sets; for b in {4..64} membership is queried at every mentioned element, its one-bit neighbours, its mirror image, 0 and 2^b-1.",
          "sets of a history share one environment"),
  "C20": ("bounded-exhaustive (all functions of <= 4 variables x 3 filters) + random + CLI spawns; oracle = truth-table containment",
          "Direction of the filter checked on truth tables for every function within the bound; result ordered/reduced/within support/shared nodes.",
